@@ -245,6 +245,8 @@ fn check_delay(cx: &mut Cx, ring_lens: &[usize], in_bufs: Option<usize>, n_out: 
 /// registry-trait signal yielding frame k = [k*N + c] (exact in f32 for the lengths used)
 struct Counter<const N: usize> {
     k: u32,
+    /// Some(L): exhausted after L frames, equilibrium (0.0) from then on
+    len: Option<u32>,
 }
 impl<const N: usize> reg_signal::Signal for Counter<N>
 where
@@ -254,7 +256,13 @@ where
     fn next(&mut self) -> [f32; N] {
         let k = self.k;
         self.k += 1;
-        core::array::from_fn(|c| (k * N as u32 + c as u32) as f32)
+        if matches!(self.len, Some(l) if k >= l) {
+            return [0.0; N];
+        }
+        core::array::from_fn(|c| (k * N as u32 + c as u32 + 1) as f32)
+    }
+    fn is_exhausted(&self) -> bool {
+        matches!(self.len, Some(l) if self.k >= l)
     }
 }
 
@@ -262,16 +270,30 @@ fn check_signal_node<const N: usize>(cx: &mut Cx, n_out: usize, calls: usize) ->
 where
     [f32; N]: reg_frame::Frame<Sample = f32>,
 {
-    let mut node: Box<dyn reg_signal::Signal<Frame = [f32; N]>> = Box::new(Counter::<N> { k: 0 });
+    // an endless signal, one that runs dry in the middle of a buffer, one that is empty
+    for len in [None, Some(100u32), Some(64), Some(0)] {
+        if !check_signal_node_len::<N>(cx, n_out, calls, len) {
+            return false;
+        }
+    }
+    true
+}
+
+fn check_signal_node_len<const N: usize>(cx: &mut Cx, n_out: usize, calls: usize, len: Option<u32>) -> bool
+where
+    [f32; N]: reg_frame::Frame<Sample = f32>,
+{
+    let mut node: Box<dyn reg_signal::Signal<Frame = [f32; N]>> = Box::new(Counter::<N> { k: 0, len });
     let outs = drive(&mut node, &[], n_out, calls);
     for (k, out) in outs.iter().enumerate() {
         for c in 0..n_out {
             for s in 0..LEN {
                 let frame = (k * LEN + s) as u32;
-                let want = if c < N { (frame * N as u32 + c as u32) as f32 } else { garbage_arr(c)[s] };
+                let past_end = matches!(len, Some(l) if frame >= l);
+                let want = if c < N { if past_end { 0.0 } else { (frame * N as u32 + c as u32 + 1) as f32 } } else { garbage_arr(c)[s] };
                 if out[c][s].to_bits() != want.to_bits() {
-                    let what = if c < N { "signal|wrong_frame_or_channel" } else { "signal|surplus_buffer_modified" };
-                    cx.fail(what, format!("{}-channel signal into {} buffers: call {} buffer {} sample {}: {} expected {}", N, n_out, k, c, s, out[c][s], want));
+                    let what = if c < N && past_end { "signal|exhausted_signal_not_written_as_equilibrium" } else if c < N { "signal|wrong_frame_or_channel" } else { "signal|surplus_buffer_modified" };
+                    cx.fail(what, format!("{}-channel signal (length {:?}) into {} buffers: call {} buffer {} sample {}: {} expected {}", N, len, n_out, k, c, s, out[c][s], want));
                     return false;
                 }
             }
@@ -516,7 +538,7 @@ fn main() {
     }
     let n_jobs = jobs.len();
     let (shard, nshards) = (cli.shard, cli.nshards);
-    let seeds: u64 = if lean { 1 } else { cli.t(3, 40) };
+    let seeds: u64 = if lean { 1 } else { cli.t(3, 400) };
     let reps = vmon::par_for(if lean { 1 } else { cli.threads }, n_jobs as u64, 4, |_| Report::new("C16", "w"), |rep, i| {
         if i % nshards != shard {
             return;
